@@ -7,8 +7,8 @@ CONSTANTS
   MaxRuns = 1
   EntQKinds = {"positive"}
   Budget = 1
-  Shapes = {"secure3", "insecure3"}
-  Denials = {"nsec", "nsec3"}
+  Shapes = {"secure3"}
+  Denials = {"nsec"}
   QKinds = {"positive", "nxdomain"}
   AdvActs = {"AddBadSig", "AddCollidingKey", "AddExtraDs"}
 SPECIFICATION Spec
